@@ -5,7 +5,7 @@
    the closed forms against which the Boost-ported kernels are certified at
    anchors.  No theorem about the accuracy of the kernels between anchors. *)
 From Coq Require Import ZArith QArith Reals List Bool.
-From ADV Require Import Base.Num C13.Model C13.Spec C13.ProofsGlue C13.ProofsDrivers C13.ProofsTables C13.ProofsAnchors.
+From ADV Require Import Base.Num C13.Model C13.Spec C13.Spec2 C13.ProofsGlue C13.ProofsDrivers C13.ProofsTables C13.ProofsAnchors C13.ProofsAnchors2.
 Import ListNotations.
 Local Open Scope R_scope.
 
@@ -105,3 +105,32 @@ Example GammaQ_relations_satisfiable : forall x,
 Proof. exact Q_closed_forms_satisfy_relations. Qed.
 Example LogSub_hypothesis_satisfiable : lg_le (LFin 0) (LFin 1) /\ lg_le LNegInf (LFin 0) /\ lg_le LNegInf LNegInf.
 Proof. simpl. repeat split; try exact I. apply Rle_0_1. Qed.
+
+(* ---- (4) round 2: linear-size closed forms used by the boundary / large-order anchors ---- *)
+(* Q(n, x) = e^-x (1 + x/1 (1 + x/2 (1 + ... x/(n-1)))) — the shape certified for a up to 500 *)
+Theorem GammaQ_integer_order_nested_form : forall (Qf : R -> R -> R) (x : R),
+  Qf 1 x = exp (- x) ->
+  (forall n : nat, (1 <= n)%nat -> Qf (INR n + 1) x = Qf (INR n) x + x ^ n * exp (- x) / IZR (zfact n)) ->
+  forall n, Qf (INR (Datatypes.S n)) x = Q_int_nest (Datatypes.S n) x.
+Proof.
+  intros Qf x H1 H2 n. rewrite <- Q_int_nest_eq by (apply le_n_S, Nat.le_0_l).
+  exact (Q_int_closed Qf x H1 H2 n).
+Qed.
+(* I_{+-(n+1/2)}(a/b) = sqrt(2/(pi x)) (P_n(b/a) sinh x + Q_n(b/a) cosh x), P_n, Q_n over Z from the recurrence *)
+Theorem BesselI_half_integer_order_rational_argument : forall (I : R -> R -> R) (a b : Z), a <> 0%Z -> b <> 0%Z ->
+  let x := IZR a / IZR b in
+  (forall v, I (v - 1) x - I (v + 1) x = 2 * v / x * I v x) ->
+  I (1 / 2) x = sqrt (2 / (PI * x)) * sinh x -> I (- (1 / 2)) x = sqrt (2 / (PI * x)) * cosh x ->
+  forall n, I (INR n + 1 / 2) x = i_half_rat n a b /\ I (- (INR n + 1 / 2)) x = i_mhalf_rat n a b.
+Proof.
+  intros I a b Ha Hb x H1 H2 H3 n. split.
+  - rewrite <- i_half_rat_eq by assumption. apply i_half_closed; assumption.
+  - rewrite <- i_mhalf_rat_eq by assumption. apply i_mhalf_closed; assumption.
+Qed.
+(* zeta(2k) = (-1)^(k+1) B_2k (2 pi)^2k / (2 (2k)!) from the values at the negative integers and the functional equation *)
+Theorem Zeta_at_even_integers : forall Zf : R -> R,
+  (forall n : nat, Zf (- INR n) = zeta_neg n) ->
+  (forall k : nat, (1 <= k)%nat ->
+     Zf (1 - INR (2 * k)) = 2 / (2 * PI) ^ (2 * k) * cos (PI * INR k) * IZR (zfact (2 * k - 1)) * Zf (INR (2 * k))) ->
+  forall k, (1 <= k)%nat -> Zf (INR (2 * k)) = zeta_even k.
+Proof. exact zeta_even_closed. Qed.
